@@ -127,11 +127,17 @@ def cases(tier, seed):
     quick = tier == "quick"
     n_pairs = 16 if quick else 200
     for i in range(n_pairs):
-        out.append({"engine": "gpclone", "kind": GPCLONE_KINDS[i % 2], "seed": base + 700001 + i * 29})
+        sp = {"engine": "gpclone", "kind": GPCLONE_KINDS[i % 2], "seed": base + 700001 + i * 29}
+        if i % 4 >= 2:
+            sp["early_fail"] = True
+        out.append(sp)
     n_gp = 16 if quick else 200
     for kind in GP_DILL_KINDS:
         for i in range(n_gp):
-            out.append({"engine": "dill", "kind": kind, "seed": base + 500009 + i * 31 + GP_DILL_KINDS.index(kind)})
+            sp = {"engine": "dill", "kind": kind, "seed": base + 500009 + i * 31 + GP_DILL_KINDS.index(kind)}
+            if i % 4 == 3:
+                sp["early_fail"] = True
+            out.append(sp)
     n_mf = 14 if quick else 350
     for i in range(n_mf):
         for j, kind in enumerate(DILL_KINDS):
@@ -289,6 +295,11 @@ def expand(spec):
             if rng.random() < 0.35:
                 p["space"] = gen.small_space(rng, finite=True, with_const=False, ordinal_kinds=("equal",))
             p["rc_n"] = rng.randint(3, 20)
+            if spec.get("dup", p["dup"]):
+                # allow_duplicates: the exclusion list only holds configs of failed trials (via config_for_trial_id);
+                # that matters when a trial fails and its config can come up again: small candidate set, failures
+                p["rc_n"] = rng.randint(3, 8)
+                p["fail_rate"] = rng.choice([0.15, 0.3, 0.3])
         else:
             p["shuffle"] = rng.random() < 0.6
             p["dup"] = rng.random() < 0.4
@@ -407,6 +418,13 @@ def expand(spec):
             p["max_t"] = 1
         if kind in ("gp_fifo", "gp_mf", "gp_mobster") and rng.random() < 0.3:
             p["gp"]["allow_duplicates"] = True
+        if spec.get("early_fail"):
+            # a failure among the initial random trials: decides whether the next get_config is still 'random' or
+            # already model based (failed trials count), and its config must stay excluded
+            p["gp"]["num_init_random"] = rng.randint(2, 3)
+            p["fail"] = {str(rng.randint(0, p["gp"]["num_init_random"] - 1)): [0, rng.randint(0, 1)]}
+            p["fail_rate"] = 0.0
+            p["n_workers"] = rng.randint(1, 2)
         p["rc"] = kind in ("gp_fifo", "gp_mf", "gp_mobster") and rng.random() < 0.25
         p["rc_n"] = rng.randint(12, 30)
     for k_, v_ in spec.items():
@@ -789,6 +807,8 @@ def _drive(p, seed, order, snapshot_fn=None, sample=None, all_points=True, wrap=
                     first_paused_done = True
                 s = {"k": step, "idx": len(port.log), "paused": n_paused, "running": len(vt.running),
                      "nprs": np.random.get_state(), "ctx_idx": None if ctx is None else len(ctx.log)}
+                if p["kind"] == "hb_pasha":
+                    s["probe"] = _set_order_probe(sched)
                 try:
                     s["blob"] = snapshot_fn(sched)
                 except Exception as e:  # noqa: BLE001
@@ -798,6 +818,21 @@ def _drive(p, seed, order, snapshot_fn=None, sample=None, all_points=True, wrap=
             break
         step += 1
     return vt, port, snaps, sched, ctx
+
+
+def _set_order_probe(sched):
+    """Read-only probe (mechanism key only): iteration order of the ``set`` objects PASHA iterates over when it
+    estimates epsilon (``epoch_to_trials``); pickling does not preserve the iteration order of a set."""
+    try:
+        out = []
+        for rs in sched.terminator._rung_systems:
+            e2t = getattr(rs, "epoch_to_trials", None)
+            if e2t is None:
+                return None
+            out.append([[ep, list(v)] for ep, v in sorted(e2t.items())])
+        return out
+    except Exception:  # noqa: BLE001
+        return None
 
 
 def _has_compared_output(log, idx):
@@ -906,6 +941,9 @@ def _judge_restore_point(o, p, fac, kind, log1, s, restore_fn, np, replay_fn=Non
         o.violate("restore", f"{prefix}:{kind}:restore_raised:{type(e).__name__}", {"k": k, "error": repr(e)[:300]})
         return
     gp = kind.startswith("gp_")
+    order_changed = s.get("probe") is not None and _set_order_probe(R) != s["probe"]
+    if order_changed:
+        o.count(f"set_iteration_order_changed_by_round_trip:{fac}")
 
     def attempt(R_):
         saved = np.random.get_state()
@@ -962,6 +1000,8 @@ def _judge_restore_point(o, p, fac, kind, log1, s, restore_fn, np, replay_fn=Non
     if bad is not None:
         j, got, exp = bad
         what = _classify(log1, j, got, exp)
+        if order_changed:
+            what += ":iteration_order_of_epoch_to_trials_sets_not_preserved"
         o.violate("continuation_equal", f"{prefix}:{kind}:{what}",
                   {"restore_point_k": k, "history_steps": None, "first_difference_at_call": j, "calls_after_restore": j - idx,
                    "call": [log1[j][0], log1[j][1]], "uninterrupted": exp, "restored": got,
